@@ -25,8 +25,10 @@
 #define GMAX 8
 
 #ifdef VC_UNIT_ROC
+#ifndef VC_REAL_AREA
 static double vc_area(matrix *xy, size_t iv) { (void)xy; (void)iv; return 0.5; }
 #define curve_area vc_area
+#endif
 #include "statistic.c"
 static const unsigned char PERMS[6][3] = {{0,1,2},{0,2,1},{1,0,2},{1,2,0},{2,0,1},{2,1,0}};
 void h_ROC(void)
@@ -63,6 +65,20 @@ void h_ROC(void)
     VC_CHECK("ROC: monotone non-decreasing", roc->data[r + 1][0] >= roc->data[r][0] && roc->data[r + 1][1] >= roc->data[r][1]);
   }
   VC_CHECK("ROC: ends at (1,1)", roc->data[VC_N][0] == 1.0 && roc->data[VC_N][1] == 1.0);
+#ifdef VC_REAL_AREA
+  /* with the real trapezoid routine: class sizes 1 or 2 make every coordinate and every trapezoid exactly representable
+   * (exact instances), so the area must equal the Mann-Whitney probability exactly.  The expected value depends on the
+   * score ORDER only: invariance under strictly increasing maps and under reordering of the objects, and AUC -> 1 - AUC
+   * under negation (the reversed order), follow from deciding this for every order. */
+  {
+    size_t conc = 0;
+    for(size_t r1 = 0; r1 < VC_N; r1++)
+      for(size_t r2 = r1 + 1; r2 < VC_N; r2++)
+        if(((VC_LABELS >> order[r1]) & 1) && !((VC_LABELS >> order[r2]) & 1))
+          conc++; /* a positive ranked above a negative */
+    VC_CHECK("AUC == probability that a positive outscores a negative (Mann-Whitney), exactly", auc == (double)conc / (double)(npos * nneg));
+  }
+#endif
   /* precision-recall curve on the same data: starts at (recall 0, precision 1), recall non-decreasing, ends at recall 1 */
   {
     matrix *pr;
@@ -79,7 +95,7 @@ void h_ROC(void)
       VC_CHECK("PR: recall is non-decreasing", pr->data[r + 1][0] >= pr->data[r][0]);
     }
     VC_CHECK("PR: ends at recall 1", pr->data[VC_N][0] == 1.0);
-    VC_CHECK("PR: reported area lies in [0,1] when the area routine returns a value in [0,1]", ap >= 0.0 && ap <= 1.0);
+    VC_CHECK("PR: reported area lies in [0,1]", ap >= 0.0 && ap <= 1.0);
   }
   VC_REACH();
 }
